@@ -315,7 +315,8 @@ class Degree:
                 return 0
             recv = self.expr(f.value, m)
             if meth == "_bilinear_derivative" and len(e.args) >= 2:
-                return collapse(self.mul(self.expr(e.args[0], m), self.expr(e.args[1], m), e, m, pairwise=True))
+                bargs = e.args[1:] if (len(e.args) >= 3 and isinstance(e.args[0], ast.Name) and e.args[0].id == "self") else e.args
+                return collapse(self.mul(self.expr(bargs[0], m), self.expr(bargs[1], m), e, m, pairwise=True))
             if meth in LINEAR_METHODS:
                 if not self._args_zero(list(e.args) + kwvals, m):
                     return UNK
@@ -492,6 +493,12 @@ def check_linearity(idx: ProgramIndex, rep: Report, classes: List[ClassInfo], ru
         if not grads:
             continue
         who = f"{c.name}.backward"
+        try:
+            from ..inline import inline_helpers
+
+            fn, _inl = inline_helpers(idx, fn)  # same-module helpers are analysed as part of the body
+        except Exception:  # pragma: no cover - an un-inlinable shape is analysed as written
+            pass
         rd = ReachingDefs(fn, reads=value_reads)
         returns = [r for r in walk_body(fn) if isinstance(r, ast.Return) and r.value is not None]
         # ---- L0: dependence of the returned entries
@@ -610,3 +617,72 @@ def check_linearity(idx: ProgramIndex, rep: Report, classes: List[ClassInfo], ru
                     else:
                         rep.ok(rule_i, sample)
     return n_l, n_i
+
+
+# ------------------------------------------------------------------------------------------------ C07.B
+def _is_zero_factory(e: ast.AST) -> bool:
+    return isinstance(e, ast.Call) and (dotted(e.func) or "").split(".")[-1] in ("zeros_like", "zeros", "zeros_", "new_zeros")
+
+
+def check_bilinear_degree(idx: ProgramIndex, rep: Report, rule: str = "C07.B") -> int:
+    """``_bilinear_derivative(left_vecs, right_vecs)`` is d(left^T A right)/d(representation): BILINEAR - every returned
+    entry that is not None / an explicit zero depends on both arguments, and no product has both operands depending on
+    the same one (degree 2 in left and 0 in right is the copy-and-paste slip `left` for `right`, which symmetric test
+    inputs left == right cannot see)."""
+    n = 0
+    for c in idx.operator_classes():
+        fn = c.methods.get("_bilinear_derivative")
+        if fn is None:
+            continue
+        a = fn.node.args
+        params = [x.arg for x in a.posonlyargs + a.args]
+        if len(params) < 3:
+            continue
+        ups = params[1:3]
+        who = f"{c.name}._bilinear_derivative"
+        rd = ReachingDefs(fn, reads=value_reads)
+        returns = [r for r in walk_body(fn) if isinstance(r, ast.Return) and r.value is not None]
+        for r in returns:
+            for leaf, at in return_leaves(fn, rd, r):
+                if _is_zero_factory(leaf):
+                    continue
+                clo = rd.closure(at, value_reads(leaf))
+                missing = [g for g in ups if g not in clo]
+                n += 1
+                txt = ast.unparse(leaf)[:60]
+                sample = {"function": who, "returned_entry": txt, "depends_on": [g for g in ups if g in clo], "clause": "B0"}
+                if missing:
+                    rep.bad(rule, Finding(PROP, rule, who, f"returned entry `{txt}` independent of {', '.join(missing)}",
+                                          f"{who}: the returned entry `{txt}` does not depend on `{', '.join(missing)}`; the derivative of "
+                                          "left^T A right is bilinear in the two vector arguments, so every non-zero entry reads both "
+                                          "(invisible when the tests pass left == right)", fn.loc(r)), sample)
+                else:
+                    rep.ok(rule, sample)
+        for g in ups:
+            dg = Degree(fn, rd, g, params)
+            for nid, node in rd.cfg.nodes.items():
+                st = node.ast
+                if st is None or node.kind not in ("stmt", "test") or isinstance(st, (ast.FunctionDef, ast.AsyncFunctionDef, ast.ClassDef)):
+                    continue
+                if isinstance(st, (ast.Assign, ast.AugAssign, ast.AnnAssign, ast.Return, ast.Expr)) and getattr(st, "value", None) is not None:
+                    try:
+                        dg.expr(st.value, nid)
+                    except RecursionError:
+                        pass
+            n += 1
+            degs = {}
+            for r in returns:
+                for leaf, at in return_leaves(fn, rd, r):
+                    d = collapse(dg.expr(leaf, at))
+                    degs[ast.unparse(leaf)[:40]] = "unknown" if d is UNK else d
+            sample = {"function": who, "argument": g, "clause": "B2", "degree_of_returned_entries": degs,
+                      "products_with_both_operands_depending_on_it": len(dg.sites)}
+            if dg.sites:
+                for key, sx in sorted(dg.sites.items()):
+                    txt = ast.unparse(sx["node"])[:70]
+                    rep.bad(rule, Finding(PROP, rule, who, f"product of degree 2 in `{g}`",
+                                          f"{who}: both operands of `{txt}` depend on `{g}`; the result is quadratic in it although the "
+                                          "derivative is linear in each of the two vector arguments", fn.loc(sx["node"])), dict(sample, site=txt))
+            else:
+                rep.ok(rule, sample)
+    return n
